@@ -286,6 +286,9 @@ func init() {
 				specs = append(specs, seqSpec{Cfg: cfg, Alpha: c19Alpha, Depth: d, Checks: "db", Mode: "damage"})
 			}
 			specs = append(specs, seqSpec{Cfg: "flushy/shortlex", Alpha: mustAlpha("shortlex"), Depth: d, Checks: "db", Probes: mustProbes("shortlex")})
+			// the zero-length key (its internal key is exactly the 8-byte trailer), values and
+			// tombstones, in tables that get rebuilt because another block of theirs is damaged
+			specs = append(specs, seqSpec{Cfg: "wide/bytewise", Alpha: []string{"put:", "put:a", "putL:b", "del:", "w:-,+a", "cr", "q"}, Depth: d, Checks: "db", Probes: emptyKeyProbes, Mode: "damage,emptykey"})
 			// continue from deep / rewritten layouts (e.g. older data in a higher-numbered table
 			// than newer data: after Recover everything sits in level 0, where only sequence
 			// numbers may decide)
